@@ -230,6 +230,9 @@ def _validate_hoa_parameters_consistent(adm):
                       get_rtime, get_duration)
 
     for pack_paths_channels in _hoa_pack_format_paths_channels(adm):
+        if not pack_paths_channels:
+            raise AdmError("HOA audioPackFormats must contain at least one audioChannelFormat")
+
         get_single_param(pack_paths_channels, "rtime", get_rtime)
         get_single_param(pack_paths_channels, "duration", get_duration)
         get_single_param(pack_paths_channels, "normalization", get_normalization)
